@@ -561,6 +561,15 @@ func setup() error {
 			return fmt.Errorf("put: %v", r)
 		}
 	}
+	// a bucket of each user's own: the place it may always copy to
+	for _, u := range users {
+		if r := cl.MustCall("PUT", "/own-"+u, nil, nil, nil); !r.OK() {
+			return fmt.Errorf("create bucket: %v", r)
+		}
+		if r := cl.MustCall("PATCH", "/change-bucket-owner", s3c.Q("bucket", "own-"+u, "owner", u), nil, nil); !r.OK() {
+			return fmt.Errorf("change-bucket-owner: %v", r)
+		}
+	}
 	return nil
 }
 
@@ -606,6 +615,14 @@ func runB(c caseB) error {
 				}
 				if !want && (g.Status != 403 || g.Code() != "AccessDenied") {
 					return fmt.Errorf("policy does not allow %s s3:GetObject on %s but the request answered %v\n%s", c.Eval.Caller, key, g, doc)
+				}
+				// the same decision governs reading the key as the source of a copy into the caller's own bucket
+				cp := u.MustCall("PUT", "/own-"+c.Eval.Caller+"/copy", nil, []s3c.KV{{K: "x-amz-copy-source", V: bucket + "/" + key}}, nil)
+				if want && !cp.OK() {
+					return fmt.Errorf("policy allows %s s3:GetObject on %s but copying it into the caller's own bucket answered %v\n%s", c.Eval.Caller, key, cp, doc)
+				}
+				if !want && (cp.Status != 403 || cp.Code() != "AccessDenied") {
+					return fmt.Errorf("policy does not allow %s s3:GetObject on %s but copying it into the caller's own bucket answered %v\n%s", c.Eval.Caller, key, cp, doc)
 				}
 			}
 		}
